@@ -15,7 +15,7 @@ INTS_T = INTS_Q + [-3, 4, 10, 62, 66, 127, 128, 255, 256, 4094, -4095, -4096, 2*
                    2**62, -2**62, 2**63 - 2, -2**63 + 2, -10**18, 999999999999999999, 1000000, 123456789, -987654321, 2**40 + 12345]
 FLOATS_Q = [0.0, -0.0, 0.5, 1.0, -1.5, 2.0**53, 9007199254740994.0, 1e21, 1e308, 5e-324, float("inf"), float("-inf"), float("nan")]
 FLOATS_T = FLOATS_Q + [2.0, 3.0, 0.1, 100000.0, 1e6, 1e20, -1e21, 9.223372036854775807e18, 2.0**63, -2.0**63, 1.7976931348623157e308, 2.2250738585072014e-308, 4096.0, -1.0]
-STRS = ["", "a", "ab", "7"]
+STRS = ["", "a", "ab", "7", "12", "3"]
 OPS = ["+", "-", "*", "/", "%", "&", "|", "<<", ">>", "<", "<=", ">", ">=", "==", "!="]
 TREE_OPS = ["+", "-", "*", "%", "&", "|", "<<", ">>"]
 
